@@ -208,6 +208,7 @@ macro_rules! bool_harness {
         #[kani::stub(crate::injector_core::linuxapi::__clear_cache, shim_clear_cache)]
         #[kani::stub(<*mut u8>::add, shim_add)]
         #[kani::stub(crate::injector_core::common::allocate_jit_memory, shim_allocate_jit_memory)]
+        #[kani::stub(str::trim, shim_trim)]
         fn $name() {
             unsafe { bool_gate::<$n>($want) }
         }
@@ -218,3 +219,44 @@ bool_harness!(bool_gate_accepts_16, 16, true, 26);
 bool_harness!(bool_gate_refuses_20, 20, false, 26);
 bool_harness!(bool_gate_refuses_22, 22, false, 26);
 bool_harness!(bool_gate_accepts_22, 22, true, 26);
+
+// ---- exact-length variants: the length is concrete, only the content is symbolic.  The union
+// ---- over all lengths is the same claim as the symbolic-length harness, but each instance stays
+// ---- decidable even when the gate is implemented with heavier string machinery.
+unsafe fn bool_gate_exact<const L: usize>(want_bool: bool) {
+    let f = setup();
+    let mut i = 0;
+    while i < L {
+        let b: u8 = kani::any();
+        kani::assume(b >= 0x20 && b < 0x7f);
+        sim::S.SIGBUF[0][i] = b;
+        i += 1;
+    }
+    let sig: &'static str = core::str::from_utf8_unchecked(&sim::S.SIGBUF[0][..L]);
+    let verdict = oracle_ret_is_bool(&sim::S.SIGBUF[0][..L]);
+    kani::assume(verdict == Some(want_bool));
+    let mut inj = InjectorPP::new();
+    sim::S.NO_TOUCH = !want_bool;
+    inj.when_called(FuncPtr::new(f as *const (), sig)).will_return_boolean(kani::any());
+    assert!(want_bool, "VERIF[C10]: a forced boolean result was accepted for a function whose return type is not bool");
+    assert!(sim::ENT[0].nwrites == 1 && sim::live_jits() == 1, "VERIF[C10]: a bool-returning target was accepted but nothing was installed");
+    kani::cover!(true, "COVER: accepted signature of this length exists");
+    core::mem::forget(inj);
+}
+macro_rules! bool_exact {
+    ($name:ident, $l:literal, $want:expr) => {
+        #[kani::proof]
+        #[kani::unwind(26)]
+        #[kani::stub(std::ptr::copy_nonoverlapping, shim_copy)]
+        #[kani::stub(crate::injector_core::linuxapi::__clear_cache, shim_clear_cache)]
+        #[kani::stub(<*mut u8>::add, shim_add)]
+        #[kani::stub(crate::injector_core::common::allocate_jit_memory, shim_allocate_jit_memory)]
+        #[kani::stub(str::trim, shim_trim)]
+        fn $name() {
+            unsafe { bool_gate_exact::<$l>($want) }
+        }
+    };
+}
+bool_exact!(bool_gate_refuses_len15, 15, false);
+bool_exact!(bool_gate_refuses_len20, 20, false);
+bool_exact!(bool_gate_accepts_len12, 12, true);
